@@ -677,6 +677,7 @@ class Ctx:
         self.assumptions = []
         self.observed = {}        # label -> python values the harness wants to expose (samples)
         self.unknown_branch = 0
+        self._varcache = {}
         self.query_log = cfg.get("query_log")   # list to collect smt2 of obligations (thorough)
 
     # ---- input construction --------------------------------------------------------------
@@ -750,12 +751,26 @@ class Ctx:
         t0 = time.perf_counter()
         self.queries += 1
         if self.nl or _is_nonlinear(extra):
+            # fresh non-incremental solver (nlsat portfolio), on the cone of influence of the query only: assertions that
+            # share no variable (transitively) with the query cannot affect its satisfiability as long as the path
+            # condition itself is satisfiable
+            sub = self._slice(extra)
             s = z3.Solver()
             s.set("timeout", self.timeout_ms)
-            s.add(*self.pc)
+            s.add(*sub)
             s.add(extra)
             r = s.check()
-            m = s.model() if (r == z3.sat and want_model) else None
+            m = None
+            if r == z3.sat and want_model:
+                if len(sub) == len(self.pc):
+                    m = s.model()
+                else:
+                    s2 = z3.Solver()
+                    s2.set("timeout", self.timeout_ms)
+                    s2.add(*self.pc)
+                    s2.add(extra)
+                    r = s2.check()
+                    m = s2.model() if r == z3.sat else None
         else:
             s = self.solver
             s.push()
@@ -765,6 +780,48 @@ class Ctx:
             s.pop()
         self.solver_s += time.perf_counter() - t0
         return str(r), m
+
+    def _vars_of(self, t):
+        key = t.get_id()
+        c = self._varcache.get(key)
+        if c is not None:
+            return c[0]
+        out = set()
+        stack = [t]
+        seen = set()
+        while stack:
+            e = stack.pop()
+            i = e.get_id()
+            if i in seen:
+                continue
+            seen.add(i)
+            if z3.is_const(e) and e.decl().kind() == z3.Z3_OP_UNINTERPRETED:
+                out.add(i)
+            else:
+                stack.extend(e.children())
+        self._varcache[key] = (out, t)
+        return out
+
+    def _slice(self, extra):
+        want = set(self._vars_of(extra))
+        if not want:
+            return list(self.pc)
+        remaining = [(a, self._vars_of(a)) for a in self.pc]
+        chosen = []
+        changed = True
+        while changed:
+            changed = False
+            rest = []
+            for a, vs in remaining:
+                if not vs or (vs & want):
+                    chosen.append(a)
+                    if vs - want:
+                        want |= vs
+                        changed = True
+                else:
+                    rest.append((a, vs))
+            remaining = rest
+        return chosen
 
     def assume_term(self, t, quiet=False):
         if not quiet:
@@ -1047,6 +1104,25 @@ class Ctx:
             self.discharged += 1
             return True
         return self._fail(t, label, detail)
+
+    def eq(self, a, b):
+        """equality that is exact on symbolic reals and tolerant (relative 1e-9) on floats in concrete replay"""
+        if is_sym(a) or is_sym(b):
+            return a == b
+        if isinstance(a, (float, Fraction)) or isinstance(b, (float, Fraction)) or _is_reallike(a) or _is_reallike(b):
+            return abs(a - b) <= self.tol * max(1.0, abs(a), abs(b))
+        return a == b
+
+    def le(self, a, b):
+        if is_sym(a) or is_sym(b):
+            return a <= b
+        return a <= b + self.tol * max(1.0, abs(a), abs(b))
+
+    def trig_pair(self, x):
+        """(cos x, sin x): the abstract pair in symbolic mode, the real values in concrete mode"""
+        if is_sym(x):
+            return self.trig(x)
+        return math.cos(x), math.sin(x)
 
     def claim_eq(self, a, b, label, detail=None):
         if self.concrete or not (is_sym(a) or is_sym(b)):
